@@ -1,7 +1,8 @@
 (* Properties/C19.v — general expression parser: totality, conventional precedence,
    sound folding, display round trip.  Statements only; proofs are in Proofs/Expr*.v. *)
 From Coq Require Import ZArith NArith List Bool Reals Lia Lra.
-From SV Require Import Base.Num Base.Outcome Base.Str Model.Expr Model.RefExpr Proofs.ExprTotal Proofs.ExprFold Proofs.ExprRead Proofs.ExprReadJuxt Proofs.ExprRefute Proofs.ExprDisplay.
+From SV Require Import Base.Num Base.Outcome Base.Str Model.Expr Model.RefExpr
+  Proofs.ExprTotal Proofs.ExprFold Proofs.ExprRead Proofs.ExprReadJuxt Proofs.ExprDisplay Proofs.ExprExamples.
 Import ListNotations.
 
 (* 1. TOTALITY, for every number type (so for reals and for f64): the lexer, parse_expr given
@@ -24,128 +25,92 @@ Print Assumptions c19_total.
 Example c19_fuel_outcome_reachable : @parse_expr R 1 [TLParen; TVar [120%N]; TRParen] 0 = Panic WFuel.
 Proof. reflexivity. Qed.
 
-(* 3. SOUND FOLDING.  Wherever the unfolded tree has a value, the folded tree has the same value —
-   under the premise [pow_safe e rho] (Proofs/ExprFold.v), which excludes exactly the situation in
-   which the rule 0^_ = 0 fires on an exponent whose value at rho is 0:
-     pow_safe (EBin o l r _) rho := pow_safe l rho /\ pow_safe r rho /\
-        (o = OCaret -> is_num 0 (foldS l) = true -> is_num 0 (foldS r) = false -> denote r rho <> Some 0)
-     pow_safe _ rho := True
-   All other rules (0*_, _*0, _^0, 0+_, _+0, _-0, 0-_, _/1) are proved sound without premise. *)
+(* 2. CONVENTIONAL PRECEDENCE.  [fragJ ts] (Proofs/ExprReadJuxt.v) is a condition on the tokens only:
+   no % and no explicit · (they are outside the property's operator list), and an operand end is directly
+   followed by an operand start only where the code supports juxtaposition (number·variable/constant/function/( ,
+   variable or constant followed by number, variable, constant, function or ( ).  Everything else is allowed:
+   numbers, variables, constants, functions, parentheses, + - * / ^ !, prefix minus in every position.
+   For every such token list, of any length and nesting, that the parser accepts, the reference reader
+   Model/RefExpr.v reads it too, and the two trees are related by [simr]: equal up to the paren flags and up to
+   the scope of a leading minus of a product (the parser reads -a*b/c as -((a*b)/c), the reference as
+   ((-a)*b)/c) — hence they have the same value at every point, defined or not. *)
+Theorem c19_parser_reads : forall (ts : list (token R)) (e : expr R),
+  fragJ ts = true -> parse_unfolded ts = Ok e ->
+  exists e', ref_read ts = Some e' /\ simr e e' /\ forall rho, denote e rho = denote e' rho.
+Proof. exact Proofs.ExprReadJuxt.c19_parser_reads_lemma. Qed.
+Check c19_parser_reads : forall (ts : list (token R)) (e : expr R),
+  fragJ ts = true -> parse_unfolded ts = Ok e ->
+  exists e', ref_read ts = Some e' /\ simr e e' /\ forall rho, denote e rho = denote e' rho.
+Print Assumptions c19_parser_reads.
+
+(* the same for [parser] (= fold after parse_unfolded): wherever the reading has a value, the returned tree has
+   that value (the fold can only extend the domain: 0*(1/0) folds to 0) *)
+Theorem c19_parser_reads_folded : forall (ts : list (token R)) (e : expr R),
+  fragJ ts = true -> parser ts = Ok e ->
+  exists e', ref_read ts = Some e' /\ forall rho v, denote e' rho = Some v -> denote e rho = Some v.
+Proof. exact Proofs.ExprReadJuxt.c19_parser_reads_folded_lemma. Qed.
+Check c19_parser_reads_folded : forall (ts : list (token R)) (e : expr R),
+  fragJ ts = true -> parser ts = Ok e ->
+  exists e', ref_read ts = Some e' /\ forall rho v, denote e' rho = Some v -> denote e rho = Some v.
+Print Assumptions c19_parser_reads_folded.
+
+(* non-vacuity, and the former counterexamples: -(x + y) * 4z^2! - 1/2x + sin(x)^2 / -y * z is in the fragment
+   and is parsed; x/-y*z is (x/(-y))*z; sin(x)^2 is (sin x)^2 *)
+Example c19_reads_nonvacuous :
+  let x := @TVar R [120%N] in let y := @TVar R [121%N] in let z := @TVar R [122%N] in
+  let ts := [TOp OSub; TLParen; x; TOp OAdd; y; TRParen; TOp OMul; TNum 4%R; z; TOp OCaret; TNum 2%R; TOp OFac;
+             TOp OSub; TNum 1%R; TOp ODiv; TNum 2%R; x; TOp OAdd;
+             TFun FSin; TLParen; x; TRParen; TOp OCaret; TNum 2%R; TOp ODiv; TOp OSub; y; TOp OMul; z] in
+  fragJ ts = true /\ exists e, parse_unfolded ts = Ok e.
+Proof. cbn zeta. split; [reflexivity|eexists; reflexivity]. Qed.
+Example c19_unary_minus_factor_only :
+  parser [tx; TOp ODiv; TOp OSub; ty; TOp OMul; tz] = Ok (EBin OMul (EBin ODiv ex (EPre OSub ey) false) ez false)
+  /\ ref_read [tx; TOp ODiv; TOp OSub; ty; TOp OMul; tz] = Some (EBin OMul (EBin ODiv ex (EPre OSub ey) false) ez false).
+Proof. exact Proofs.ExprExamples.unary_minus_factor_only. Qed.
+Example c19_function_argument_only :
+  parse_unfolded [TFun FSin; TLParen; tx; TRParen; TOp OCaret; ty] = Ok (EBin OCaret (EFun FSin ex) ey false)
+  /\ ref_read [TFun FSin; TLParen; tx; TRParen; TOp OCaret; ty] = Some (EBin OCaret (EFun FSin ex) ey false)
+  /\ parse_unfolded [TFun FSin; TLParen; tx; TRParen; TOp OFac] = Ok (EPost OFac (EFun FSin ex)).
+Proof. exact Proofs.ExprExamples.function_argument_only. Qed.
+
+(* 3. SOUND FOLDING, without premise: wherever the unfolded tree has a value, the folded tree has the same
+   value — every rule (0*_, _*0, _^0, 0^number, 0+_, _+0, _-0, 0-_, _/1), nested anywhere. *)
 Theorem c19_fold_sound : forall (e : expr R) (rho : env) (v : R),
-  denote e rho = Some v -> pow_safe e rho ->
+  denote e rho = Some v ->
   exists e', fold_operations e = Ok e' /\ denote e' rho = Some v.
 Proof. exact Proofs.ExprFold.c19_fold_sound_lemma. Qed.
 Check c19_fold_sound : forall (e : expr R) (rho : env) (v : R),
-  denote e rho = Some v -> pow_safe e rho ->
+  denote e rho = Some v ->
   exists e', fold_operations e = Ok e' /\ denote e' rho = Some v.
 Print Assumptions c19_fold_sound.
 
-(* the same with a premise that does not mention the fold: no power sub-expression is 0^0 at rho *)
-Theorem c19_fold_sound_no_zero_pow_zero : forall (e : expr R) (rho : env) (v : R),
-  denote e rho = Some v -> no_zero_pow_zero e rho ->
-  exists e', fold_operations e = Ok e' /\ denote e' rho = Some v.
-Proof. exact Proofs.ExprFold.c19_fold_sound_no_zero_pow_zero_lemma. Qed.
-Check c19_fold_sound_no_zero_pow_zero : forall (e : expr R) (rho : env) (v : R),
-  denote e rho = Some v -> no_zero_pow_zero e rho ->
-  exists e', fold_operations e = Ok e' /\ denote e' rho = Some v.
-Print Assumptions c19_fold_sound_no_zero_pow_zero.
+(* folding is idempotent (the second call inside the rule 0 - r is the identity), for every number type *)
+Theorem c19_fold_idempotent : forall (T : Type) (NT : Num T) (e e' : expr T),
+  fold_operations e = Ok e' -> fold_operations e' = Ok e'.
+Proof. exact Proofs.ExprFold.c19_fold_idempotent_lemma. Qed.
+Check c19_fold_idempotent : forall (T : Type) (NT : Num T) (e e' : expr T),
+  fold_operations e = Ok e' -> fold_operations e' = Ok e'.
+Print Assumptions c19_fold_idempotent.
 
-(* the unrestricted statement is FALSE for the code as it is (finding F16d): 0^x at x = 0 *)
-Theorem c19_fold_refuted :
-  exists (e e' : expr R) (rho : env) (v : R),
-    denote e rho = Some v /\ fold_operations e = Ok e' /\ denote e' rho <> Some v.
-Proof. exact Proofs.ExprFold.c19_fold_refuted_lemma. Qed.
-Check c19_fold_refuted :
-  exists (e e' : expr R) (rho : env) (v : R),
-    denote e rho = Some v /\ fold_operations e = Ok e' /\ denote e' rho <> Some v.
-Print Assumptions c19_fold_refuted.
-
-(* non-vacuity of the premise: (0 + x*y) ^ 2 at x = 3, y = 5 is pow_safe and has the value 225 *)
-Example c19_fold_nonvacuous :
-  let e := EBin OCaret (EBin OAdd (ENum 0%R) (EBin OMul (EVar [120%N]) (EVar [121%N]) false) true) (ENum 2%R) false in
-  let rho := fun v : str => match v with [120%N] => 3%R | _ => 5%R end in
-  pow_safe e rho /\ exists v, denote e rho = Some v.
-Proof.
-  cbn. split.
-  - repeat split; try discriminate.
-    intros _ H. exfalso. revert H. cbn [n0 RNum].
-    unfold Reqb. destruct (Req_EM_T 0 0); [|contradiction]. cbn. discriminate.
-  - unfold pow_val. destruct (is_integer_dec 2) as [_|N]; [|exfalso; apply N; apply (is_integer_IZR 2)].
-    destruct (Req_EM_T (0 + 3 * 5) 0) as [E|_]; [exfalso; lra|eexists; reflexivity].
-Qed.
-
-(* 2. CONVENTIONAL PRECEDENCE (partial).  [fragmentJ ts] (Proofs/ExprReadJuxt.v): every token is a number,
-   variable, constant, parenthesis or one of + - * / ^ ! (no function, no %, no explicit ·); an operand end is
-   directly followed by an operand start only where the code supports juxtaposition (number·variable,
-   number·constant, number·( , variable/constant followed by number, variable, constant or ( ); every - follows
-   an operand end (it is a binary minus).  On that fragment the tree returned by parse_expr / parse_unfolded is
-   the tree of the stratified reference reader Model/RefExpr.v up to the paren flags — for ALL lengths and
-   nestings: juxtaposition binds tighter than * and / (4x^2 is one unit, 1/2x = 1/(2x)), * and / tighter than
-   + and -, ^ tighter still, all left-associative, ! postfix, parentheses.
-   MISSING for the full statement c19_parser_reads: the constructs on which the current code is refuted below
-   (prefix minus, functions) or deviates from the reference (%, explicit ·: findings F16h, F16i). *)
-Theorem c19_parser_reads_partial : forall (ts : list (token R)) (e : expr R),
-  fragmentJ ts -> parse_unfolded ts = Ok e ->
-  exists e', ref_read ts = Some e' /\ e' = erase e /\ forall rho, denote e rho = denote e' rho.
-Proof. exact Proofs.ExprReadJuxt.c19_parser_reads_partial_lemma. Qed.
-Check c19_parser_reads_partial : forall (ts : list (token R)) (e : expr R),
-  fragmentJ ts -> parse_unfolded ts = Ok e ->
-  exists e', ref_read ts = Some e' /\ e' = erase e /\ forall rho, denote e rho = denote e' rho.
-Print Assumptions c19_parser_reads_partial.
-
-(* the same for [parser] (= fold after parse_unfolded): the value of the reading, where defined and
-   where the fold is sound (premise of c19_fold_sound) *)
-Theorem c19_parser_reads_folded_partial : forall (ts : list (token R)) (e : expr R),
-  fragmentJ ts -> parser ts = Ok e ->
-  exists u e', parse_unfolded ts = Ok u /\ ref_read ts = Some e' /\
-    forall rho v, denote e' rho = Some v -> pow_safe u rho -> denote e rho = Some v.
-Proof. exact Proofs.ExprReadJuxt.c19_parser_reads_folded_partial_lemma. Qed.
-Check c19_parser_reads_folded_partial : forall (ts : list (token R)) (e : expr R),
-  fragmentJ ts -> parser ts = Ok e ->
-  exists u e', parse_unfolded ts = Ok u /\ ref_read ts = Some e' /\
-    forall rho v, denote e' rho = Some v -> pow_safe u rho -> denote e rho = Some v.
-Print Assumptions c19_parser_reads_folded_partial.
-
-(* outside the fragment the statement is FALSE for the code as it is: x/-y*z (finding F16a) ... *)
-Theorem c19_unary_refuted :
-  exists (ts : list (token R)) (e e' : expr R) (rho : env),
-    parser ts = Ok e /\ ref_read ts = Some e' /\ denote e rho <> denote e' rho.
-Proof. exact Proofs.ExprRefute.c19_unary_refuted_lemma. Qed.
-Check c19_unary_refuted :
-  exists (ts : list (token R)) (e e' : expr R) (rho : env),
-    parser ts = Ok e /\ ref_read ts = Some e' /\ denote e rho <> denote e' rho.
-Print Assumptions c19_unary_refuted.
-
-(* ... and sin(x)^2 (finding F16b) *)
-Theorem c19_func_refuted :
-  exists (ts : list (token R)) (e e' : expr R) (rho : env),
-    parser ts = Ok e /\ ref_read ts = Some e' /\ denote e rho <> denote e' rho.
-Proof. exact Proofs.ExprRefute.c19_func_refuted_lemma. Qed.
-Check c19_func_refuted :
-  exists (ts : list (token R)) (e e' : expr R) (rho : env),
-    parser ts = Ok e /\ ref_read ts = Some e' /\ denote e rho <> denote e' rho.
-Print Assumptions c19_func_refuted.
-
-(* non-vacuity: (x + y) * 4z^2! - 1/2x is in the fragment and is parsed; 1/2x is read as 1/(2x) *)
-Example c19_reads_nonvacuous :
-  let x := @TVar R [120%N] in let y := @TVar R [121%N] in let z := @TVar R [122%N] in
-  let ts := [TLParen; x; TOp OAdd; y; TRParen; TOp OMul; TNum 4%R; z; TOp OCaret; TNum 2%R; TOp OFac;
-             TOp OSub; TNum 1%R; TOp ODiv; TNum 2%R; x] in
-  fragmentJ ts /\ exists e, parse_unfolded ts = Ok e.
-Proof. cbn zeta. split; [split; [reflexivity|exact I]|eexists; reflexivity]. Qed.
-Example c19_reads_juxt :
-  @parse_unfolded R [TNum 1%R; TOp ODiv; TNum 2%R; TVar [120%N]]
-  = Ok (EBin ODiv (ENum 1%R) (EBin OMul (ENum 2%R) (EVar [120%N]) false) false).
-Proof. reflexivity. Qed.
+(* the former counterexample 0^x is left alone; 0^2 = 0 and 0^0 = 1 are still folded *)
+Example c19_zero_power_fold :
+  fold_operations (EBin OCaret (ENum 0%R) ex false) = Ok (EBin OCaret (ENum 0%R) ex false)
+  /\ fold_operations (EBin OCaret (ENum 0%R) (ENum 2%R) false) = Ok (ENum 0%R)
+  /\ fold_operations (EBin OCaret (ENum 0%R) (ENum 0%R) false) = Ok (ENum 1%R).
+Proof. exact Proofs.ExprExamples.zero_power_fold. Qed.
 
 (* 4. DISPLAY ROUND TRIP (partial).  [dfrag e] (Proofs/ExprDisplay.v): e is built from one-letter variables
-   other than e / E, the constant e, + - * / % ^ and postfix !, and every operand of an operator is an atom,
-   a factorial of an operand, or a binary operation carrying its paren flag (fully parenthesised below the
-   top operator); no number occurs.  Such trees are in the parser's image, and lexer, parser and fold of the
-   printed text give back the very same tree, for every number type and every rendering of numbers.
-   MISSING for the full statement: numbers (needs the specification of `{}` on f64), the juxtaposition
-   shortcuts of Display (2x, x^2, 2x^2), operands left unparenthesised by precedence, functions, prefix minus —
-   and, on the current tree, the refuted classes below. *)
+   other than e / E, the four constants, + - * / % ^, postfix ! and prefix minus; the right operand of an operator
+   is an atom, a factorial, a paren-flagged binary operation or a prefix minus of one of these; the left operand
+   the same without prefix minus — except for ^ and for the operand of !, where Display puts the prefix minus in
+   parentheses; the tree itself may in addition be one binary operation without paren flag.  No number occurs.
+   Such trees are in the parser's image, and lexer, parser and fold of the printed text give back the very same
+   tree, for every number type and every rendering of numbers.
+   MISSING for the full statement: numbers (needs the specification of `{}` on f64) and with them the
+   juxtaposition shortcuts of Display (2x, x^2, 2x^2); functions; operands left unparenthesised by precedence
+   (a + b * c) — where the round trip is in fact FALSE on the current tree for products bound by juxtaposition
+   (x/yz prints as x / y * z: known finding F16j) and for two residual classes (F16e, F16f in
+   known_findings.d/C19.json). *)
 Theorem c19_display_roundtrip_partial : forall (T : Type) (NT : Num T) (fmt : T -> str) (e : expr T),
   dfrag e = true -> @reread T NT fmt e = Ok e.
 Proof. exact (@Proofs.ExprDisplay.c19_display_roundtrip_partial_lemma). Qed.
@@ -153,42 +118,23 @@ Check c19_display_roundtrip_partial : forall (T : Type) (NT : Num T) (fmt : T ->
   dfrag e = true -> @reread T NT fmt e = Ok e.
 Print Assumptions c19_display_roundtrip_partial.
 
-(* refuted on the current tree, for every rendering of numbers:
-   (-x)^y prints as "-x ^ y" and reads back as -(x^y)   (finding F16e) *)
-Theorem c19_display_prefix_refuted : forall fmt : R -> str,
-  exists (ts : list (token R)) (e e' : expr R) (rho : env),
-    parser ts = Ok e /\ reread fmt e = Ok e' /\ denote e' rho <> denote e rho.
-Proof. exact Proofs.ExprRefute.c19_display_prefix_refuted_lemma. Qed.
-Check c19_display_prefix_refuted : forall fmt : R -> str,
-  exists (ts : list (token R)) (e e' : expr R) (rho : env),
-    parser ts = Ok e /\ reread fmt e = Ok e' /\ denote e' rho <> denote e rho.
-Print Assumptions c19_display_prefix_refuted.
+(* the former counterexamples: (-x)^y, (-x)!, the constants, and (0 + x*y)^z through the fold *)
+Example c19_display_prefix_and_constants : forall fmt : R -> str,
+  reread fmt (EBin OCaret (EPre OSub ex) ey false) = Ok (EBin OCaret (EPre OSub ex) ey false)
+  /\ reread fmt (EPost OFac (EPre OSub ex)) = Ok (EPost OFac (EPre OSub ex))
+  /\ reread fmt (EBin OAdd (EConst KPi) (EBin OMul (EConst KTau) (EConst KPhi) true) false)
+     = Ok (EBin OAdd (EConst KPi) (EBin OMul (EConst KTau) (EConst KPhi) true) false).
+Proof. exact Proofs.ExprExamples.display_prefix_and_constants. Qed.
+Example c19_fold_keeps_paren : forall fmt : R -> str,
+  let e := EBin OCaret (EBin OMul ex ey true) ez false in
+  parser [TLParen; TNum 0%R; TOp OAdd; tx; TOp OMul; ty; TRParen; TOp OCaret; tz] = Ok e /\ reread fmt e = Ok e.
+Proof. exact Proofs.ExprExamples.fold_keeps_paren. Qed.
 
-(* pi prints as U+03C0, which the lexer rejects   (finding F16g) *)
-Theorem c19_display_constant_refuted : forall fmt : R -> str,
-  exists (ts : list (token R)) (e : expr R),
-    parser ts = Ok e /\ reread fmt e = Err EUnexpectedChar.
-Proof. exact Proofs.ExprRefute.c19_display_constant_refuted_lemma. Qed.
-Check c19_display_constant_refuted : forall fmt : R -> str,
-  exists (ts : list (token R)) (e : expr R),
-    parser ts = Ok e /\ reread fmt e = Err EUnexpectedChar.
-Print Assumptions c19_display_constant_refuted.
-
-(* (0 + x*y)^z folds to a tree printed as "x * y ^ z", read back as x*(y^z)   (finding F16c) *)
-Theorem c19_display_fold_paren_refuted : forall fmt : R -> str,
-  exists (ts : list (token R)) (e e' : expr R) (rho : env),
-    parser ts = Ok e /\ reread fmt e = Ok e' /\ denote e' rho <> denote e rho.
-Proof. exact Proofs.ExprRefute.c19_display_fold_paren_refuted_lemma. Qed.
-Check c19_display_fold_paren_refuted : forall fmt : R -> str,
-  exists (ts : list (token R)) (e e' : expr R) (rho : env),
-    parser ts = Ok e /\ reread fmt e = Ok e' /\ denote e' rho <> denote e rho.
-Print Assumptions c19_display_fold_paren_refuted.
-
-(* non-vacuity: ((x + y) * z)! ^ (x / e) is in the fragment; it is what the parser returns for its own text *)
+(* non-vacuity: ((x + -y) * z)! ^ -(x / pi) is in the fragment; it is what the parser returns for its own text *)
 Example c19_display_nonvacuous :
-  let x := @EVar R [120%N] in let y := @EVar R [121%N] in let z := @EVar R [122%N] in
-  let e := EBin OCaret (EPost OFac (EBin OMul (EBin OAdd x y true) z true)) (EBin ODiv x (EConst KE) true) false in
-  dfrag e = true /\
-  parser [TLParen; TLParen; TVar [120%N]; TOp OAdd; TVar [121%N]; TRParen; TOp OMul; TVar [122%N]; TRParen; TOp OFac;
-          TOp OCaret; TLParen; TVar [120%N]; TOp ODiv; TConst KE; TRParen] = Ok e.
+  let e := EBin OCaret (EPost OFac (EBin OMul (EBin OAdd ex (EPre OSub ey) true) ez true))
+                       (EPre OSub (EBin ODiv ex (EConst KPi) true)) false in
+  @dfrag R e = true /\
+  parser [TLParen; TLParen; tx; TOp OAdd; TOp OSub; ty; TRParen; TOp OMul; tz; TRParen; TOp OFac;
+          TOp OCaret; TOp OSub; TLParen; tx; TOp ODiv; TConst KPi; TRParen] = Ok e.
 Proof. cbn zeta. split; reflexivity. Qed.
